@@ -86,6 +86,7 @@ type agg struct {
 	otherProps  map[string]int
 	libPanics   int
 	wallMsTotal int64
+	panicNotes  []string
 }
 
 func newAgg() *agg {
@@ -111,6 +112,10 @@ func (a *agg) add(r *RunResult, prop string) {
 		a.aborted[r.Aborted]++
 		if len(r.Panics) > 0 {
 			a.libPanics++
+			if len(a.panicNotes) < 3 {
+				pp := r.Panics[0]
+				a.panicNotes = append(a.panicNotes, fmt.Sprintf("seed=%d family=%s goroutine=%s: %s\n%s", r.Seed, r.Family, pp.G, pp.Value, topLibFrames(pp.Stack, 8)+firstLines(pp.Stack, 14)))
+			}
 		}
 	} else {
 		a.completed++
@@ -386,6 +391,9 @@ func cmdRun(args []string) int {
 	if exit == 0 && a.completed == 0 {
 		fmt.Fprintf(os.Stderr, "vcheck: no run completed\n")
 		exit = 2
+	}
+	for _, n := range a.panicNotes {
+		fmt.Printf("vcheck: note: a run was aborted by a panic (not attributed to %s): %s\n", pc.ID, n)
 	}
 	wall := time.Since(t0).Seconds()
 	writeEvidence(pc, *tier, seed, a, wall, len(founds), exhaustive, detN, detBad, known, fams)
